@@ -9,7 +9,9 @@ IMPORTS = ("Base.Label Base.Attr Base.Outcome Model.Hypergraph Model.HgCheck Mod
            "Model.SimplicialComplex Model.ScCheck Model.Copy")
 CLASSES = {"Hypergraph": (hgsim, "dup_mismatches_hg"), "DiHypergraph": (disim, "dup_mismatches_di"),
            "SimplicialComplex": (scsim, "dup_mismatches_sc")}
-NESTED = [{"tags": [1, 2], "meta": {"a": [1], "b": "x"}}, {"tags": ["u"], "w": 3}, {"meta": {"k": {"z": [0]}}}]
+NESTED = [{"tags": [1, 2], "meta": {"a": [1], "b": "x"}}, {"tags": ["u"], "w": 3}, {"meta": {"k": {"z": [0]}}},
+          # mutable objects inside immutable containers, and a set
+          {"route": ([1, 2], "x")}, {"pos": (0.5, {"k": 1}), "tags": [3]}, {"group": {1, 2}, "pair": (("a", [0]), 1)}]
 
 
 def dup(net, route):
@@ -38,18 +40,28 @@ def decorate(sim, net, rng):
 
 
 def mutate_nested(net):
-    """in-place changes of nested attribute values reached through `net`"""
+    """in-place changes of nested attribute values reached through `net` (inside lists, dicts, sets and tuples)"""
+    def mut(v):
+        k = 0
+        if isinstance(v, list):
+            v.append("MUT"); k += 1
+            for w in v[:-1]:
+                k += mut(w)
+        elif isinstance(v, dict):
+            for w in list(v.values()):
+                k += mut(w)
+            v["MUT"] = 1; k += 1
+        elif isinstance(v, set):
+            v.add("MUT"); k += 1
+        elif isinstance(v, tuple):
+            for w in v:
+                k += mut(w)
+        return k
     n = 0
     for view in (net.nodes, net.edges):
         for i in view:
-            for v in view[i].values():
-                if isinstance(v, list):
-                    v.append("MUT"); n += 1
-                elif isinstance(v, dict):
-                    v["MUT"] = 1; n += 1
-                    for w in v.values():
-                        if isinstance(w, list):
-                            w.append("MUT"); n += 1
+            for v in list(view[i].values()):
+                n += mut(v)
     for v in net._net_attr.values():
         if isinstance(v, dict):
             v["MUT"] = 1; n += 1
